@@ -151,6 +151,65 @@ def _mk():
 
 
 NATIVE = {'core.glom': _mk()}
+
+def bounded_entry_points(tier, seed):
+    """the statement on the three entry points glom(), Glommer().glom() and Spec(...).glom(): for a catalogue of raised exceptions (builtin, user,
+    GlomError subclasses with plain / extra-argument / argument-transforming constructors, BaseException-only) x keyword shapes (none, default,
+    skip_exc, both): the class of what leaves is the class raised, args are equal, GlomError-ness as stated, default returned exactly for
+    errors matching skip_exc (GlomError when only default is given; None when only skip_exc is given) -- and the entry points agree."""
+    import glom
+    from glom import glom as G, Glommer, Spec, GlomError
+    class Plain(GlomError):
+        pass
+    class Extra(GlomError):
+        def __init__(self, a, b):
+            super().__init__(a, b)
+    class Transforming(GlomError):
+        def __init__(self, code):
+            super().__init__('code %s' % code)
+    class UserErr(Exception):
+        pass
+    class Abort(BaseException):
+        pass
+    def raiser(make):
+        def f(t):
+            raise make()
+        return f
+    makers = [('ValueError', lambda: ValueError('v', 1)), ('KeyError', lambda: KeyError('k')), ('UserErr', lambda: UserErr('u')), ('Plain', lambda: Plain('p', 2)),
+              ('Extra', lambda: Extra(1, 2)), ('Transforming', lambda: Transforming(5)), ('Abort', lambda: Abort('stop')), ('ZeroDivisionError', lambda: ZeroDivisionError())]
+    sentinel = object()
+    shapes = [('none', {}), ('default', {'default': sentinel}), ('skip_exc', {'skip_exc': (ValueError, Abort)}), ('both', {'default': sentinel, 'skip_exc': (KeyError, Plain)}),
+              ('skip_exc-only-class', {'skip_exc': ZeroDivisionError})]
+    def run(call, spec, kw):
+        try:
+            return ('ok', call({'a': 1}, spec, **kw))
+        except BaseException as e:
+            return ('exc', type(e), e.args, isinstance(e, GlomError))
+    cases, failures = 0, []
+    for name, make in makers:
+        orig = make()
+        for sname, kw in shapes:
+            spec = ('a', raiser(make))
+            outs = {'glom': run(G, spec, kw), 'Glommer.glom': run(Glommer().glom, spec, kw), 'Spec.glom': run(lambda t, s, **k: Spec(s).glom(t, **k), spec, kw)}
+            # expectation from the statement
+            skip = kw.get('skip_exc', GlomError if 'default' in kw else ())
+            dflt = kw.get('default', None if 'skip_exc' in kw else sentinel)
+            replaced = ('default' in kw or 'skip_exc' in kw) and isinstance(orig, skip)
+            for entry, got in outs.items():
+                cases += 1
+                if replaced:
+                    ok = got == ('ok', dflt if ('default' in kw or 'skip_exc' in kw) else None)
+                else:
+                    ok = got[0] == 'exc' and issubclass(got[1], type(orig)) and got[2] == orig.args and (got[3] or not isinstance(orig, Exception) or name == 'Abort')
+                if not ok and len(failures) < 3:
+                    failures.append({'key': 'entry-points', 'input': {'raised': name, 'keywords': sname, 'entry': entry}, 'observed': repr(got)[:200],
+                                     'expected': ('the default' if replaced else 'an instance of %s with args %r' % (name, orig.args)), 'replay_code': None})
+    return {'name': 'exception fidelity and default selectivity on the three entry points', 'label': 'bounded', 'cases': cases,
+            'bound': '8 raised exceptions x 5 keyword shapes x 3 entry points', 'failures': failures}
+
+
+BOUNDED = [bounded_entry_points]
+
 ASSUMPTIONS = [
     '_glom (the evaluation) is an uninterpreted summary here; it re-raises the very exception object (its contract is proved in C08/C05)',
     'copy.copy(e) / type(name, bases, {}) / cls(*args) are opaque library primitives that may raise; GlomError._finalize / _set_wrapped are opaque method calls on the error object',
